@@ -162,8 +162,10 @@ def _cleave(ctx, f):
     P = {n: ("param", n) for n in f.params}
     SITES = P[p_sites]
     loops = [n for n in walk_own(f.node) if isinstance(n, ast.For)]
-    outer = [n for n in loops if T.of(n.iter) == (
-        "call", "builtins.enumerate", (SITES,), ())]
+    LEN_SITES = ("call", "builtins.len", (SITES,), ())
+    outer = [n for n in loops if T.of(n.iter) in (
+        ("call", "builtins.enumerate", (SITES,), ()),
+        ("call", "builtins.range", (LEN_SITES,), ()))]
     ctx.check(len(outer) == 1 and cfg.enclosing(outer[0], (ast.For,))
               is None if outer else False, "C17b-every-start-site", f,
               "every site is tried as a peptide start",
